@@ -41,6 +41,8 @@ static inline int __asan_address_is_poisoned(const volatile void *) { return 0; 
 #endif
 const char *verif_harness = VERIF_HARNESS_NAME;
 using namespace verif;
+// frees the storage of an object created with `new T` without running its destructor (scratch pools are abandoned, not torn down)
+template<typename T> void raw_delete(T *p) { if constexpr(alignof(T) > __STDCPP_DEFAULT_NEW_ALIGNMENT__) ::operator delete((void *)p, std::align_val_t(alignof(T))); else ::operator delete((void *)p); }
 
 namespace {
 
@@ -380,8 +382,9 @@ struct Runner {
 			unsigned ops = objects_per_slab(reps[k]);
 			if(!ops) { c.tag("class-not-calibratable"); continue; }
 			size_t fit = info.slab / reps[k];
-			// the calibration is the pool's own answer; it is only accepted if at least half of the slab (give or take one object) holds objects
-			VCHECK(c, "C02", ops >= 1 && ops <= fit && (size_t)ops * reps[k] * 2 + reps[k] >= info.slab, "%u objects of %zu bytes per %zu-byte slab is outside the plausible range", ops, reps[k], info.slab);
+			// the calibration is the pool's own answer (how long a slab of a class is and how much of it holds objects is the pool's business);
+			// it is only required to be possible at all
+			VCHECK(c, "C02", ops >= 1 && ops <= fit, "%u objects of %zu bytes per %zu-byte slab is outside the plausible range", ops, reps[k], info.slab);
 			unsigned bound = (peak_live[k] + ops - 1) / ops;
 			VCHECK(c, "C02", slabs_mapped[k] <= bound, "%s: %u slabs are mapped for the %zu-byte class although at most %u blocks of it were ever live at once (%u fit into a slab): freed memory is not reused before new memory is mapped",
 					what, slabs_mapped[k], reps[k], peak_live[k], ops);
@@ -404,7 +407,7 @@ struct Runner {
 			if(same_class && n > 1) result = n - 1;
 			ASAN_UNPOISON_MEMORY_REGION(arena_base() + saved->high, scratch.high - saved->high);
 			madvise(arena_base() + saved->high, scratch.high - saved->high, MADV_DONTNEED);
-			::operator delete(pl);
+			raw_delete(pl);
 		}
 		mutex_log().held = held; mutex_log().error.clear();
 		E = saved;
@@ -424,7 +427,7 @@ struct Runner {
 			{ Pol p; Pool *pl = new Pool(p); void *q = pl->allocate(n); rep = q ? pl->get_size(q) : 0;
 			  ASAN_UNPOISON_MEMORY_REGION(arena_base() + saved->high, scratch.high - saved->high);
 			  madvise(arena_base() + saved->high, scratch.high - saved->high, MADV_DONTNEED);
-			  ::operator delete(pl); }
+			  raw_delete(pl); }
 			mutex_log().held = held; mutex_log().error.clear();
 			E = saved;
 			it = cache.emplace(n, rep).first;
@@ -446,7 +449,7 @@ struct Runner {
 			{ Pol p; Pool *pl = new Pool(p); void *q = pl->allocate(n); unsigned before = scratch.unmap_calls; if(q) pl->free(q); small = q && scratch.unmap_calls == before;
 			  ASAN_UNPOISON_MEMORY_REGION(arena_base() + saved->high, scratch.high - saved->high);
 			  madvise(arena_base() + saved->high, scratch.high - saved->high, MADV_DONTNEED);
-			  ::operator delete(pl); }
+			  raw_delete(pl); }
 			mutex_log().held = held; mutex_log().error.clear();
 			E = saved;
 			return small;
